@@ -11,14 +11,16 @@ from lib import dtextractcorr
 
 PROP = 'C01'
 LEVEL = 'proof'
-PROPS_MODULES = ['RTV.Props.C01']
+PROPS_MODULES = ['RTV.Props.C01', 'RTV.Props.C01DtExtract']
 GEN = ['chartables', 'preprocess']
 REQUIRED_THEOREMS = ['preprocess_length_of', 'recodePairs_single', 'preprocess_length', 'preprocess_length_current_fails',
                      'preprocess_length_current_partial', 'sweep_spans', 'sweep_spans_ip', 'sweep_spans_number',
                      'percent_posmap_monotone', 'percent_restore_span', 'mergeAllTokens_text', 'model_end',
                      'mergeModPrefix_span', 'mergeModPrefix_leading_blank', 'modifier_push_pop',
                      'modifier_push_pop_suffix', 'modifier_push_pop_index_counterexample', 'phoneRespan_span',
-                     'mergedExtract_spans', 'parser_push_pop', 'parser_pop_without_reset_restores_twice', 'parser_push_pop_equal_around_counterexample', 'parser_push_pop_index_counterexample']
+                     'mergedExtract_spans', 'parser_push_pop', 'parser_pop_without_reset_restores_twice', 'parser_push_pop_equal_around_counterexample', 'parser_push_pop_index_counterexample',
+                     # RTV.Props.C01DtExtract: the date-time sub-extractors' token arithmetic
+                     'subextractor_results_ok', 'dateBasic_inside', 'numberWithMonth_inside', 'extendWdYear_inside', 'extendWdYear_overrun_witness', 'agoLater_inside', 'relDurLoop_inside', 'inPrefix_reversed_witness', 'numberWithUnit_inside', 'numberWithUnitAndSuffix_inside', 'mergeMultipleDuration_inside', 'tagInequality_inside', 'mdtPairTok_inside', 'mdtLoop_mem', 'mdtWiden_inside', 'todBeforeOne_inside', 'todAfterOne_inside', 'specialOne_inside', 'rangePairTok_inside', 'rangeLoop_mem', 'range_from_leading_blank', 'rangePairTok_time_after_between_witness', 'matchDurationOne_inside_partial', 'matchDuration_suffix_overrun']
 RULE = ('preprocess: every code point (blocks of 200 separated by blanks, both case modes) + seeded strings over a pool '
         'with full-width forms, U+0130, sigma, unit tokens; pipeline and unit level as C12 with oracle spanOK; '
         'non-trivial = distinct query with at least one entity / distinct recorded call with at least one result')
